@@ -113,6 +113,18 @@ def replay_sepin_all(inner, open_kind, tok, ch):
     return replay_sep_inside(inner, open_kind, tok, ch)
 
 
+def wspcell_all(open_kind: int, txt: str) -> bool:
+    """
+    pre: 1 <= open_kind <= 2 and len(txt) == 2 and txt[0] in "ab =" and txt[1] == chr(10)
+    post: _
+    """
+    return wsp_cell_step(open_kind, txt)
+
+
+def replay_wspcell_all(open_kind, txt):
+    return replay_wsp_cell(open_kind, txt)
+
+
 def extlink_all(scheme: int, label: bool, where: int, ci: int) -> bool:
     """
     pre: 0 <= scheme < N_SCHEMES and 0 <= where < len(EXT_WHERE) and 0 <= ci < len(EXT_CH)
@@ -321,6 +333,7 @@ def run(rep: C.Report) -> None:
             H,
             {
                 "^t_": dict(name="Ob2 table one-step lemmas (|-  |  !  ||  !!  |+  |})", functions=["parser.py:table_row_fn", "parser.py:table_cell_fn", "parser.py:table_hdr_cell_fn", "parser.py:double_vbar_fn", "parser.py:table_caption_fn", "parser.py:table_end_fn"], bounds="all table states with <= 2 closed cells of symbolic kind, optional open cell of symbolic kind with one symbolic content char, optional caption"),
+                "^wspcell_": dict(name="Ob11 `|` preceded only by blanks on its line starts a new cell (it is not the attribute separator of the open cell)", functions=["parser.py:table_cell_fn"], bounds="open data / header cell holding one symbolic character and a line break; wsp_beginning_of_line set, no preformatted block on top (tables inside <p> / <ref>)"),
                 "^extlink_": dict(name="Ob10 [target label] with a target of any scheme of URL_STARTS is one URL node whose argument lists are the written target and label", functions=["parser.py:magic_fn (E branch)", "parser.py:text_fn (URL check)", "core.py:Wtp._encode.repl_extlink", "common.py:URL_STARTS"], bounds="every entry of URL_STARTS (read from the source) x with/without label x {top level, table cell, list item, HTML element, link argument} x one inner target character over {a . - _ ~} (the target never ends in punctuation: a final . ! ? , is moved out of a bracketed URL by the URL-token handler, observed and not claimed either way) (symbolic indices: solver-driven case split, parse() untraced)"),
                 "^sepin_": dict(name="Ob8 cell separators (!!, mid-line !, ||) inside an open HTML element / link / template / external link in a cell are text", functions=["parser.py:table_hdr_cell_fn", "parser.py:double_vbar_fn"], bounds="4 construct kinds x data/header cell x 3 tokens x one symbolic preceding character"),
                 "^carry_": dict(name="Ob9 parse() of a table / HTML document does not depend on parser flags left behind by an earlier parse() on the same context (havoc)", engine="E4 havoc via CrossHair", functions=["parser.py:parse_encoded (per-call reset)"], bounds="4 symbolic flags (pre_parse, beginning_of_line, wsp_beginning_of_line, suppress_special); one document with a table (caption, attributes, header and data cells, link) and nested HTML elements"),
